@@ -188,6 +188,18 @@ func readerEntry(req isolate.Req) (resp isolate.Resp) {
 		opts = append(opts, mcap.WithMetadataCallback(func(*mcap.Metadata) error { return nil }))
 	}
 	var texts []string
+	if req.Opts&128 != 0 {
+		// the Reader was used before: a sequential read, abandoned after a message or two
+		meter.Do(func() {
+			if it0, err := rd.Messages(mcap.UsingIndex(false)); err == nil {
+				for i := 0; i < 2; i++ {
+					if _, _, _, err := it0.NextInto(nil); err != nil {
+						break
+					}
+				}
+			}
+		})
+	}
 	if req.Opts&32 == 0 { // Info first
 		meter.Do(func() {
 			if info, err := rd.Info(); err == nil {
@@ -550,7 +562,7 @@ func genC10(t *rapid.T) C10Case {
 		}
 		c.Opts &^= loSkipMagic
 	case entryReader:
-		c.Opts = rapid.Uint32Range(0, 127).Draw(t, "reader-opts")
+		c.Opts = rapid.Uint32Range(0, 255).Draw(t, "reader-opts")
 		c.Aux = rapid.SampledFrom([]uint64{0, 1, 8, 9, 1 << 31, 1<<63 - 10, 1<<63 - 9, 1<<64 - 9, 1<<64 - 1, 100, 1000}).Draw(t, "hostile-offset")
 	case entryParse:
 		c.Aux = uint64(rapid.IntRange(0, len(parserNames)-1).Draw(t, "parser"))
@@ -751,7 +763,7 @@ var sweepEntries = []struct {
 }{
 	{entryLexer, 0, 0}, {entryLexer, loValidate, 0}, {entryLexer, loNoCallback, 0}, {entryLexer, loNoCallback | loValidate | loEmitInvalid, 0}, {entryLexer, loEmitChunks, 0},
 	{entryLexer, loValidate | loLimit1K | loAttCRC, 0},
-	{entryReader, 0, 9}, {entryReader, 1 | 16, 1<<64 - 9}, {entryReader, 2 | 4 | 8, 0}, {entryReader, 3 | 16, 1 << 63}, {entryReader, 3 | 64, 0}, {entryReader, 64, 9},
+	{entryReader, 0, 9}, {entryReader, 1 | 16, 1<<64 - 9}, {entryReader, 2 | 4 | 8, 0}, {entryReader, 3 | 16, 1 << 63}, {entryReader, 3 | 64, 0}, {entryReader, 64, 9}, {entryReader, 128, 0}, {entryReader, 1 | 128, 0},
 }
 
 func sweepValue(idx int, old uint64, width int, fileLen uint64, recOffsets []uint64) (uint64, bool) {
@@ -907,6 +919,29 @@ func bombFile(c C10Bomb) ([]byte, error) {
 	if c.Reader {
 		hdr.CRC = 0
 	}
+	var pre *specenc.ChunkIndex
+	if c.Reader && c.Opts&128 != 0 {
+		// an ordinary chunk (channel + one message, same codec) ahead of the hostile one, so that an earlier
+		// sequential read on the same Reader has something to decode
+		pb := &specenc.Builder{}
+		pb.Channel(&wl.Channel{ID: 1, Topic: "t"})
+		pb.Message(&wl.Message{ChannelID: 1, Sequence: 1, LogTime: 1, PublishTime: 1, Data: []byte("ordinary message")})
+		var pp []byte
+		if c.Codec == "lz4" {
+			var out bytes.Buffer
+			lw := lz4.NewWriter(&out)
+			_, _ = lw.Write(pb.Buf)
+			_ = lw.Close()
+			pp = out.Bytes()
+		} else {
+			e, _ := zstd.NewWriter(nil)
+			pp = e.EncodeAll(pb.Buf, nil)
+			e.Close()
+		}
+		poff := b.Len()
+		plen := b.Chunk(specenc.ChunkHdr{UncompressedSize: uint64(len(pb.Buf)), Compression: c.Codec, Start: 1, End: 1}, pp)
+		pre = &specenc.ChunkIndex{Start: 1, End: 1, Offset: poff, Length: plen, Compression: c.Codec, CompressedSize: uint64(len(pp)), UncompressedSize: uint64(len(pb.Buf))}
+	}
 	off := b.Len()
 	length := b.Chunk(hdr, payload)
 	b.DataEnd(0)
@@ -917,6 +952,9 @@ func bombFile(c C10Bomb) ([]byte, error) {
 	}
 	summaryStart := b.Len()
 	b.Channel(&wl.Channel{ID: 1, Topic: "t"})
+	if pre != nil {
+		b.ChunkIndex(pre)
+	}
 	b.ChunkIndex(&specenc.ChunkIndex{Start: 0, End: 10, Offset: off, Length: length, Compression: c.Codec, CompressedSize: uint64(len(payload)), UncompressedSize: c.Declared})
 	b.Footer(summaryStart, 0, 0)
 	b.Magic()
@@ -942,7 +980,7 @@ func enumC10Bombs(yield func(C10Bomb) bool) {
 	// frame that decodes to 64 MiB where the chunk declares 100 bytes; file order and log-time order
 	for _, bomb := range []C10Bomb{{Codec: "zstd", Declared: 0, Real: 0, ClaimFCS: 5 << 30, Reader: true}, {Codec: "zstd", Declared: 100, Real: 64 << 20, Reader: true},
 		{Codec: "lz4", Declared: 100, Real: 64 << 20, Reader: true}} {
-		for _, opts := range []uint32{0, 1} {
+		for _, opts := range []uint32{0, 1, 128, 128 | 1} {
 			if i%n == sh {
 				bomb.Opts = opts
 				if !yield(bomb) {
